@@ -21,6 +21,7 @@ EXPLANATION = (
     "per CNF atom with the CNF's weight, an OR of (i, -i) per atom, their conjunction, every name with its node and label, every constraint copied; "
     "F5 both paths are reached from _compile on the same cnf (the non-trivial path writes cnf.to_dimacs() and loads with that same cnf)."
     " Added after seed round 6: F6 the compiler wrappers default to smooth=True and pass the smoothing flag on every path that reaches the compiler when smooth holds."
+    " Added after seed round 8: F7 a memo kept by a CNF serialiser is reset by every method that writes what it was computed from."
 )
 TECHNIQUE = "static analysis: decision table of the .nnf reader over line kinds (symbolic substitution), carry-over (who-copies-what) rules, sibling agreement of the two compile paths"
 LEVEL_TEXT = EXPLANATION
